@@ -11,6 +11,47 @@ HERE = os.path.dirname(os.path.abspath(__file__))
 BASELINE = os.path.join(HERE, "fingerprints.json")
 
 
+DS = "mesa/discrete_space/"
+SIG = "mesa/experimental/mesa_signals/"
+DEVS = "mesa/experimental/devs/"
+CS = "mesa/experimental/continuous_space/"
+VIZ = "mesa/visualization/"
+# used when a property module does not list SOURCE_FUNCS itself ("*" = whole file)
+DEFAULTS = {
+    "C01": [("mesa/model.py", "*"), ("mesa/agent.py", "*"), ("mesa/space.py", "_Grid"), (DS + "cell_collection.py", "*"),
+            (DS + "discrete_space.py", "*"), (DS + "cell.py", "*"), (DS + "grid.py", "*"), (CS + "continuous_space.py", "*"),
+            ("mesa/batchrunner.py", "*")],
+    "C02": [("mesa/model.py", "Model"), ("mesa/agent.py", "Agent")],
+    "C03": [("mesa/agent.py", "AgentSet"), ("mesa/agent.py", "GroupBy")],
+    "C04": [("mesa/agent.py", "AgentSet"), ("mesa/agent.py", "GroupBy"), ("mesa/model.py", "Model")],
+    "C05": [("mesa/model.py", "Model")],
+    "C06": [(DS + "cell_agent.py", "*"), (DS + "cell.py", "*"), (DS + "discrete_space.py", "*"), (DS + "grid.py", "*"),
+            (DS + "cell_collection.py", "*")],
+    "C07": [(DS + "cell.py", "*"), (DS + "grid.py", "*"), (DS + "network.py", "*"), (DS + "voronoi.py", "*")],
+    "C08": [("mesa/space.py", "_Grid"), ("mesa/space.py", "_PropertyGrid"), ("mesa/space.py", "SingleGrid"),
+            ("mesa/space.py", "MultiGrid")],
+    "C10": [("mesa/space.py", "ContinuousSpace"), (CS + "continuous_space.py", "*"), (CS + "continuous_space_agents.py", "*")],
+    "C11": [(DS + "property_layer.py", "*"), ("mesa/space.py", "PropertyLayer"), ("mesa/space.py", "_PropertyGrid")],
+    "C12": [("mesa/datacollection.py", "*")],
+    "C13": [("mesa/batchrunner.py", "*"), ("mesa/datacollection.py", "*")],
+    "C14": [(DEVS + "eventlist.py", "*"), (DEVS + "simulator.py", "*")],
+    "C15": [(DEVS + "eventlist.py", "*"), (DEVS + "simulator.py", "*")],
+    "C16": [(SIG + "mesa_signal.py", "*"), (SIG + "observable_collections.py", "*"), (SIG + "signals_util.py", "*")],
+    "C17": [(SIG + "mesa_signal.py", "*"), (SIG + "signals_util.py", "*")],
+    "C18": [(DS + "cell_agent.py", "*"), (DS + "cell.py", "*"), (DS + "property_layer.py", "*"), ("mesa/space.py", "*"),
+            (CS + "continuous_space_agents.py", "*"), ("mesa/datacollection.py", "*"), (DEVS + "simulator.py", "*"),
+            (SIG + "mesa_signal.py", "*")],
+    "C19": [(DS + "grid.py", "*"), (DS + "cell.py", "*"), (DS + "discrete_space.py", "*"), (DS + "property_layer.py", "*"),
+            ("mesa/agent.py", "AgentSet")],
+    "C20": [(VIZ + "mpl_space_drawing.py", "*"), (VIZ + "components/altair_components.py", "*"),
+            (VIZ + "components/matplotlib_components.py", "*"), (VIZ + "solara_viz.py", "*"), (VIZ + "user_param.py", "*")],
+}
+
+
+def funcs_of(prop):
+    return getattr(prop, "SOURCE_FUNCS", None) or DEFAULTS.get(prop.ID, [])
+
+
 def _strip_docstrings(node):
     for n in ast.walk(node):
         if isinstance(n, (ast.FunctionDef, ast.AsyncFunctionDef, ast.ClassDef, ast.Module)):
@@ -68,7 +109,7 @@ if __name__ == "__main__":
     for fn in sorted(os.listdir(os.path.join(HERE, "props"))):
         if fn.startswith("C") and fn.endswith(".py"):
             m = importlib.import_module("props." + fn[:-3])
-            funcs = getattr(m, "SOURCE_FUNCS", [])
+            funcs = funcs_of(m)
             if funcs:
                 out[m.ID] = current(repo, funcs)
     json.dump(out, open(BASELINE, "w"), indent=1, sort_keys=True)
